@@ -4,6 +4,5 @@ INVARIANT DerivBare
 INVARIANT DerivPars
 INVARIANT DerivInner
 INVARIANT DerivInvalid
-INVARIANT Laws
 INVARIANT MLLaw
 CHECK_DEADLOCK FALSE
